@@ -165,8 +165,21 @@ pub fn check_retain_kind(orig: &PortableRegistry, mask: u32, c01_only: bool, kin
     // the ids accepted by keep: for a pure predicate the set {i : keep(i)} itself (whether or not the implementation
     // asked), for a stateful one the ids it answered `true` for
     let mask = if kind == 0 { mask & ((1u32 << orig.types.len()) - 1) } else { accepted };
+    let roots: Vec<u32> = (0..orig.types.len() as u32).filter(|i| mask & (1 << i) != 0).collect();
+    verdict(orig, &r, &map, &roots, &calls, c01_only)
+}
+
+/// the C10 / C01 oracle on one retain call: `roots` = the ids the predicate accepts
+fn verdict(orig: &PortableRegistry, r: &PortableRegistry, map: &BTreeMap<u32, u32>, roots: &[u32], calls: &[u32], c01_only: bool) -> Option<(String, String)> {
+    let brief_calls = |c: &[u32]| if c.len() > 12 { format!("{:?}.. ({} calls)", &c[..12], c.len()) } else { format!("{c:?}") };
+    let calls_s = brief_calls(calls);
+    let calls = calls.to_vec();
+    let r = r.clone();
+    let map = map.clone();
+    let roots = roots.to_vec();
+    let _ = &calls_s;
     if calls.iter().any(|c| *c as usize >= orig.types.len()) {
-        return Some(("retain:filter-asked-about-unknown-id".into(), format!("the filter was asked about ids {calls:?} of a registry with {} entries", orig.types.len())));
+        return Some(("retain:filter-asked-about-unknown-id".into(), format!("the filter was asked about ids {calls_s} of a registry with {} entries", orig.types.len())));
     }
     if let Err(e) = refs::well_formed(&r) {
         return Some(("retain:not-well-formed".into(), format!("result of retain is not well-formed: {e}")));
@@ -178,7 +191,6 @@ pub fn check_retain_kind(orig: &PortableRegistry, mask: u32, c01_only: bool, kin
             Err(e) => Some(("retain:own-output-undecodable".into(), e.to_string())),
         };
     }
-    let roots: Vec<u32> = (0..orig.types.len() as u32).filter(|i| mask & (1 << i) != 0).collect();
     let reach = refs::reachable(orig, &roots);
     let keys: Vec<u32> = map.keys().cloned().collect();
     if keys != reach {
@@ -278,6 +290,99 @@ pub fn explore(thorough: bool, c01_only: bool) -> RetainStats {
         total.per_plan.insert(format!("{} (n={}, defs {:?}, params {:?})", plan.name, plan.n, plan.defs, plan.pars), count);
     }
     total
+}
+
+// ------------------------------------------------------------------ large registries (depth / size related behaviour)
+
+/// Registries far larger than the product plans can hold, in four shapes whose reference structure is fixed:
+/// a forward chain (entry i mentions i+1, every definition kind and the parameter slot in turn), a backward chain,
+/// a star (entry 0 is a tuple of all others, which mention 0 back) and a binary tree; the filter accepts a single id
+/// (first, last, middle, around 64), every second id, or everything.
+pub fn deep_registry(shape: u8, n: u32) -> PortableRegistry {
+    let link = |i: u32, to: u32| -> PType {
+        let t = to;
+        let p = |d: TypeDef<PortableForm>| lit::ty(lit::path(vec![]), vec![], d, vec![]);
+        match i % 7 {
+            0 => p(lit::sequence(t.into())),
+            1 => p(lit::array(2, t.into())),
+            2 => p(lit::compact(t.into())),
+            3 => p(lit::tuple(vec![t.into(), t.into()])),
+            4 => p(lit::composite(vec![lit::field(Some("f".into()), t.into(), None, vec![])])),
+            5 => p(lit::variants(vec![lit::variant("V".into(), vec![lit::field(None, t.into(), None, vec![])], 0, vec![])])),
+            _ => lit::ty(lit::path(vec![]), vec![lit::param("T".into(), Some(t.into()))], lit::primitive(scale_info::TypeDefPrimitive::U8), vec![]),
+        }
+    };
+    let leaf = || lit::ty(lit::path(vec![]), vec![], lit::primitive(scale_info::TypeDefPrimitive::Bool), vec![]);
+    let types = (0..n)
+        .map(|i| {
+            let ty = match shape {
+                0 => if i + 1 < n { link(i, i + 1) } else { leaf() },
+                1 => if i > 0 { link(i, i - 1) } else { leaf() },
+                2 => if i == 0 { lit::ty(lit::path(vec![]), vec![], lit::tuple((1..n).map(Into::into).collect()), vec![]) } else { link(i, 0) },
+                _ => {
+                    let kids: Vec<u32> = [2 * i + 1, 2 * i + 2].into_iter().filter(|k| *k < n).collect();
+                    if kids.is_empty() { leaf() } else { lit::ty(lit::path(vec![]), vec![], lit::composite(kids.iter().map(|k| lit::field(None, (*k).into(), None, vec![])).collect()), vec![]) }
+                }
+            };
+            lit::entry(i, ty)
+        })
+        .collect();
+    PortableRegistry { types }
+}
+
+pub fn deep_filters(n: u32) -> Vec<(String, Vec<u32>)> {
+    let mut f: Vec<(String, Vec<u32>)> = vec![("all".into(), (0..n).collect()), ("even".into(), (0..n).step_by(2).collect())];
+    for k in [0, 1, n / 2, 62, 63, 64, 65, 66, n - 2, n - 1] {
+        if k < n {
+            f.push((format!("only-{k}"), vec![k]));
+        }
+    }
+    f
+}
+
+pub fn check_deep(shape: u8, n: u32, roots: &[u32], c01_only: bool) -> Option<(String, String)> {
+    let orig = deep_registry(shape, n);
+    let keep: HashSet<u32> = roots.iter().cloned().collect();
+    let mut r = orig.clone();
+    let mut calls = vec![];
+    let map = r.retain(|id| {
+        calls.push(id);
+        keep.contains(&id)
+    });
+    verdict(&orig, &r, &map, roots, &calls, c01_only)
+}
+
+pub fn explore_deep(thorough: bool, c01_only: bool) -> (u64, u64, Vec<Violation>) {
+    let sizes: Vec<u32> = if thorough { vec![70, 130, 260, 1030] } else { vec![70, 130] };
+    let mut cases = vec![];
+    for shape in 0..4u8 {
+        for &n in &sizes {
+            for (name, roots) in deep_filters(n) {
+                cases.push((shape, n, name, roots));
+            }
+        }
+    }
+    // deep recursion needs stack: every case on its own thread with a generous stack
+    let viol: Vec<Violation> = cases
+        .par_iter()
+        .filter_map(|(shape, n, name, roots)| {
+            let (shape, n, roots2) = (*shape, *n, roots.clone());
+            let h = std::thread::Builder::new().stack_size(256 << 20).spawn(move || catch(std::panic::AssertUnwindSafe(|| check_deep(shape, n, &roots2, c01_only)))).unwrap();
+            let fail = match h.join() {
+                Ok(Ok(f)) => f,
+                Ok(Err(p)) => Some(("retain:panic".to_string(), format!("retain panicked: {p}"))),
+                Err(_) => Some(("retain:panic".to_string(), "retain thread died".to_string())),
+            };
+            fail.map(|(key, msg)| Violation { key: format!("{key}:large"), msg: format!("{msg} — {} of {n} entries, filter {name}", ["forward chain", "backward chain", "star", "binary tree"][shape as usize]), case: json!({"kind": "retain-deep", "shape": shape, "n": n, "roots": roots}) })
+        })
+        .collect();
+    let regs = (4 * sizes.len()) as u64;
+    (regs, cases.len() as u64, viol)
+}
+
+pub fn replay_deep(case: &Value, c01_only: bool) -> Option<(String, String)> {
+    let roots: Vec<u32> = case["roots"].as_array()?.iter().map(|x| x.as_u64().unwrap() as u32).collect();
+    check_deep(case["shape"].as_u64()? as u8, case["n"].as_u64()? as u32, &roots, c01_only)
 }
 
 pub fn brief(r: &PortableRegistry) -> String {
